@@ -784,6 +784,8 @@ def execute(case):
             probes["key:" + op.get("key_class", "?")] += 1
         if op["op"] in ("iter_partial", "iter_nested"):
             probes["abandoned-iteration" if op["op"] == "iter_partial" else "nested-iteration"] += 1
+        if op["op"] == "drop" and i > 0 and ops[i - 1]["op"] == "add" and ops[i - 1].get("member") == op.get("r"):
+            probes["temporary-member-released-after-add"] += 1
         if op["op"] == "add":
             probes["add"] += 1
             if op.get("overlap"):
@@ -1015,10 +1017,54 @@ def gen_case(spec):
     n_ops = g.randint(10, 50)
     combined = []
     guard = 0
+    motifs = []
+    if g.random() < 0.10:
+        motifs.append("parent-registry-first")
+    if g.random() < 0.30 and len(cat["dirs"]) >= 2:
+        motifs.append("temporary-members")
     while len(ops) < n_ops and guard < 500:
         guard += 1
         live = [h for h in handles if handles[h] is not None]
         x = g.random()
+        if motifs and g.random() < 0.15:
+            m_ = motifs.pop()
+            if m_ == "parent-registry-first":
+                # the registry class PTKRegistry derives from YTKRegistry: ask the parent first
+                hy, hp = "r%d" % len(handles), "r%d" % (len(handles) + 1)
+                ky, kp = sorted(_emb_model("ytk")), sorted(_emb_model("ptk"))
+                add({"op": "embedded", "r": hy, "kind": "ytk", "second": False})
+                add({"op": "contains", "r": hy, "key": g.choice(ky), "key_class": "present"})
+                add({"op": "embedded", "r": hp, "kind": "ptk", "second": False})
+                add({"op": "contains", "r": hp, "key": g.choice(kp), "key_class": "present"})
+                add({"op": "contains", "r": hp, "key": g.choice(ky), "key_class": "absent-other-registry"})
+                add({"op": "contains", "r": hy, "key": g.choice(kp), "key_class": "absent-other-registry"})
+                handles[hy], handles[hp] = ("embedded", "ytk"), ("embedded", "ptk")
+                keysets[hy], keysets[hp] = _emb_model("ytk"), _emb_model("ptk")
+            else:
+                # members created on the fly and released right after being added
+                # (for d in dirs: combined << FilesystemRegistry(d, base))
+                c = "c%d" % len(combined)
+                add({"op": "combined", "r": c})
+                handles[c] = ("combined", [])
+                keysets[c] = {}
+                combined.append(c)
+                ds = sorted(cat["dirs"], key=lambda d_: len(dir_model(d_)))
+                if g.random() < 0.5:
+                    g.shuffle(ds)
+                for d_ in ds[:3]:
+                    t = "r%d" % len(handles)
+                    add({"op": "open_dir", "r": t, "dir": d_["id"]})
+                    handles[t] = ("dir", d_)
+                    keysets[t] = dir_model(d_)
+                    add({"op": "add", "r": c, "member": t, "via": g.choice(["lshift", "add_registry"]), "overlap": bool(set(keysets[t]) & set(keysets[c])), "repeat": False})
+                    for kk, src in keysets[t].items():
+                        keysets[c].setdefault(kk, src)
+                    handles[c][1].append(t)
+                    add({"op": "drop", "r": t})
+                    handles[t] = None
+                add({"op": g.choice(["iter", "keys"]), "r": c})
+                add({"op": "len", "r": c})
+            continue
         if x < 0.08 and len(combined) < 2:
             h = "c%d" % len(combined)
             add({"op": "combined", "r": h})
@@ -1132,7 +1178,7 @@ def catalogue_summary(case):
     return {"dirs": [{"id": d["id"], "base": d["base"], "extensions": d["extensions"], "entries": [e["name"] + ("/" if e["kind"] == "dir" else "") for e in d["entries"]]} for d in case["catalogue"]["dirs"]], "store": case.get("store")}
 
 
-EXPECTED_PROBES = {"C20": ["abandoned-iteration", "same-plasmid-under-two-stems", "file-with-extra-label", "add-overlapping-member", "add-repeated-member", "second-equal-embedded-instance", "key:present", "key:absent-random", "key:unsupported-ext", "key:subdir", "key:non-string", "key:key-with-extension", "op-after-fault", "op-on-registry-that-saw-a-fault"]}
+EXPECTED_PROBES = {"C20": ["temporary-member-released-after-add", "abandoned-iteration", "same-plasmid-under-two-stems", "file-with-extra-label", "add-overlapping-member", "add-repeated-member", "second-equal-embedded-instance", "key:present", "key:absent-random", "key:unsupported-ext", "key:subdir", "key:non-string", "key:key-with-extension", "op-after-fault", "op-on-registry-that-saw-a-fault"]}
 
 
 def coverage_extra(prop, stats, probes):
